@@ -18,7 +18,8 @@ ENGINES = ["E0 core", "E4 linform", "E5 siblings"]
 TECHNIQUE = "linear/monomial normal forms of the stoichiometry and rate expressions over opaque atoms; loop-shape and index-role checks (ast)"
 CLAIM = ("Decides: the five stoichiometry views and the coefficient matrix are the stated signed sums; the concentration product "
          "reads only active reactants with exponent = coefficient; Reaction.rate multiplies the rate by net stoichiometry of the same "
-         "key list; ReactionSystem.rates / dCdt_list accumulate over all reactions with aligned indices; CSTR term = F*(c_feed - c).")
+         "key list; ReactionSystem.rates / dCdt_list accumulate over all reactions with aligned indices; CSTR term = F*(c_feed - c)."
+         ' One rate per reaction in the array form; defaults of the rate entry points; accumulation starts empty. Shared rule A1: no swapped same-named arguments at resolved in-package call sites.')
 DOES_NOT_DECIDE = "values for numeric/symbolic inputs beyond Python arithmetic (trusted); custom rate expressions"
 ASSUMPTIONS = ["dict.get(k, 0) and numpy indexing semantics"]
 
